@@ -92,10 +92,11 @@ def explain(replay):
     r = core.tlc("Trace_Json", None, workers=1, trace=replay, tag="explain-json", extra_env={"EXPLAIN": "1"})
     flat = " ".join(r["out"].split())
     m = re.search(r'<< ?"WHY", "(\w+)", "parse-ok", (TRUE|FALSE), "valid", (TRUE|FALSE), "canonical", (TRUE|FALSE), '
-                  r'"valid-with-escaped-keys-apart", (TRUE|FALSE)', flat)
+                  r'"valid-with-escaped-keys-apart", (TRUE|FALSE), "valid-with-feb29-every-year", (TRUE|FALSE)', flat)
     if not m:
         return {}
-    return {"ev": m.group(1), "parse_ok": m.group(2), "valid": m.group(3), "canonical": m.group(4), "valid_keys_apart": m.group(5)}
+    return {"ev": m.group(1), "parse_ok": m.group(2), "valid": m.group(3), "canonical": m.group(4), "valid_keys_apart": m.group(5),
+            "valid_feb29": m.group(6)}
 
 
 def classify(rj):
@@ -106,6 +107,9 @@ def classify(rj):
     if d.get("ev") in ("Output", "Instance") and d.get("parse_ok") == "TRUE" and d.get("valid") == "FALSE" \
             and d.get("valid_keys_apart") == "TRUE":
         sig["class"] = "escaped-key-treated-as-different-key"
+    elif d.get("ev") in ("Output", "Instance") and d.get("parse_ok") == "TRUE" and d.get("valid") == "FALSE" \
+            and d.get("valid_feb29") == "TRUE":
+        sig["class"] = "february-29-in-a-non-leap-year"
     return sig
 
 
